@@ -40,6 +40,19 @@ CLAIMED["C04"] = (
     "DESIGN.md §3 C04",
 )
 
+CLAIMED["C05"] = (
+    "Lean 4 proof (block shape of encrypt, consecutive counters, receiver round trip via the C04 theorems, "
+    "last-plaintext and one-write-one-message over all write sequences); differential correspondence of the "
+    "transport writes under a mock AEAD; independent reference controller (real ChaCha20-Poly1305) decrypting every "
+    "byte after the upgrade on a virtual-clock rig",
+    "Kernel-checked theorems for every message sequence and size about a model of HAPCrypto.encrypt and the "
+    "write/install ordering of HAPServerProtocol; scripts of reads, writes, events, delayed responses and re-keying "
+    "on the real protocol objects are decrypted by a reference controller each run, sizes steered to 1023..1026.",
+    BASE_NOTE + "AEAD correctness is a hypothesis with a proved instance; that every response/event reaches "
+    "`write` as one whole message is tied by correspondence (h11 and asyncio behaviour trusted).",
+    "DESIGN.md §3 C05",
+)
+
 NOT_YET = "not yet built in this round (model + theorems + correspondence pending; see DESIGN.md §7 build order)"
 NA = {}
 
